@@ -1288,8 +1288,20 @@ def _dict(interp, args, kwargs, node):
             d = HDict(o.entries, o.each, o.sym)
             if hasattr(o, "symkeys"):
                 d.symkeys = dict(o.symkeys)
+            d.snapshot_of = src.oid
             r = interp.alloc(d)
             interp.log("copy", node, src=src, dst=r)
+            return r
+        vo_ = getattr(interp.deref(src), "view_of", None) if isinstance(src, Ref) else None
+        if isinstance(vo_, tuple) and len(vo_) == 2 and vo_[1] == "items" and isinstance(interp.state.heap.get(vo_[0]), HDict):
+            # dict(m.items()): a copy of m as it is now
+            o = interp.state.heap[vo_[0]]
+            d = HDict(o.entries, o.each, o.sym)
+            if hasattr(o, "symkeys"):
+                d.symkeys = dict(o.symkeys)
+            d.snapshot_of = vo_[0]
+            r = interp.alloc(d)
+            interp.log("copy", node, src=Ref(vo_[0]), dst=r)
             return r
         for s in interp.segments(src, node):
             if s[0] == "one" and isinstance(s[1], TupleV) and len(s[1].items) == 2:
@@ -2568,3 +2580,15 @@ def _dict_fromkeys(interp, args, kwargs, node):
             return interp.alloc(d)
     interp.log("call.unknown", node, func=Sym(("ext", "builtins.dict.fromkeys")), args=tuple(args), kwargs=dict(kwargs))
     return Sym(("call", "builtins.dict.fromkeys", tuple(desc(a) for a in args), interp.fresh_id("c")))
+
+
+@ext("builtins.format")
+def _format_builtin(interp, args, kwargs, node):
+    """format(value, spec) of constants."""
+    if args and all(isinstance(a, Const) for a in args) and not kwargs:
+        try:
+            return Const(format(*[a.value for a in args]))
+        except Exception:  # noqa: BLE001
+            pass
+    interp.log("call.unknown", node, func=Sym(("ext", "builtins.format")), args=tuple(args), kwargs=dict(kwargs))
+    return Sym(("call", "builtins.format", tuple(desc(a) for a in args), interp.fresh_id("c")), "str")
